@@ -69,6 +69,43 @@ def info_tok(i):
     return f"{i['sig']} {i['hc']} {i['coh']} {i['wr']} {i['m4']} {i['np']} {i['ne']} {i['off']} {i['rl']}"
 
 
+def embedded_file_layer(ck):
+    """a LAS file that does not start at position 0 of the caller's stream (two files stored back to back, a file inside a container): opened with the
+    stream positioned at its first byte, the reader leaves the stream at THAT file's first point record and returns THAT file's points; the stream is
+    closed iff closefd"""
+    import laspy
+    from .. import fileio as fio
+    for ci in range(8 if ck.tier == "quick" else 80):
+        minor, fmt = [pr for pr in fio.PAIRS if pr[0] < 4][ci % len([pr for pr in fio.PAIRS if pr[0] < 4])]
+        a = fio.make_las(ck.rng, minor, fmt, 3, vlrs=fio.rand_vlrs(ck.rng, False, 1))
+        b = fio.make_las(ck.rng, minor, fmt, 2, vlrs=fio.rand_vlrs(ck.rng, False, 1))
+        ba, bb = io.BytesIO(), io.BytesIO()
+        a.write(ba)
+        b.write(bb)
+        prefix = [ba.getvalue(), bytes(ck.rng.getrandbits(8) for _ in range(1000)), b"x" * 7][ci % 3]
+        closefd = bool(ci % 2)
+        stream = io.BytesIO(prefix + bb.getvalue())
+        stream.seek(len(prefix))
+        off_b = int.from_bytes(bb.getvalue()[96:100], "little")
+        inp = {"kind": "embedded_file", "minor": minor, "fmt": fmt, "starts_at": len(prefix), "offset_to_point_data": off_b, "closefd": closefd}
+        ck.case(("embedded", minor, fmt, len(prefix), closefd, bb.getvalue()), nontrivial=True)
+        ck.count("file_not_at_stream_start")
+        try:
+            rd = laspy.open(stream, closefd=closefd)
+            pos = stream.tell()
+            pts = rd.read_points(2)
+            rd.close()
+        except Exception as e:
+            ck.fail(f"opening a file that starts at byte {len(prefix)} of the stream raised {type(e).__name__}: {e}", inp)
+            continue
+        if pos != len(prefix) + off_b:
+            ck.fail(f"a file that starts at byte {len(prefix)} of the stream: after open the stream is at {pos}, its first point record is at {len(prefix) + off_b}", inp)
+        if pts.array.tobytes() != b.points.array.tobytes():
+            ck.fail(f"a file that starts at byte {len(prefix)} of the stream: the points read are not that file's points", inp)
+        if stream.closed != closefd:
+            ck.fail(f"embedded file, closefd={closefd}: stream.closed == {stream.closed}", inp)
+
+
 def run(ck):
     logging.getLogger("laspy").setLevel(logging.CRITICAL)
     import laspy
@@ -325,6 +362,7 @@ def run(ck):
                         ck.fail(f"append mode, {label}, {kname}, closefd={closefd}, outcome '{outcome}'{' (raised ' + err + ')' if err else ''}: stream.closed == {s.closed}", sc)
                     lines.append(f"st append {sk} {info_tok(info)} {int(closefd)} {int(outcome == 'body_exception')}")
                     meta.append((sc, None, int(s.closed), None))
+    embedded_file_layer(ck)
     out = ck.driver(lines)
     bad = None
     if out is None or len(out) != len(lines):
